@@ -317,6 +317,12 @@ package ast
 // ... and "matches" means that this anchored expression matched the WHOLE requested name: there is no other way
 // to a positive answer (a literal prefix and suffix that overlap in the name are not a match)
 //@   init reMatched := false
+// ... of the name the task has NOW (a merged task was renamed to <namespace>:<name> after it was copied): the
+// expression that is tried is the one compiled, in this call, from the segments of t.Task - not one remembered from
+// an earlier name
+//@   init nameRe := nil
+//@   site regexp.MustCompile#0 ghost nameRe := result
+//@   site (*Regexp).FindStringSubmatch#0 requires arg0 == nameRe && nameRe != nil                                      [C15,C08]
 //@   site (*Regexp).FindStringSubmatch#0 requires arg1 == name                                                         [C15]
 //@   site (*Regexp).FindStringSubmatch#1 ghost reMatched := len(result) > 0
 //@   ensures result.0 ==> reMatched                                                                                    [C15]
@@ -362,6 +368,7 @@ package ast
 // parent's include statements: the list the reader collected (in goroutine completion order) is sorted first,
 // and the list that is merged is that sorted list.
 //@ ghost var sortedIncl []*Include scratch
+//@ ghost var nameRe ref scratch
 //@ ghost var pendingMerges int scratch
 //@ func (*TaskfileGraph).Merge$2
 //@   site slices.SortStableFunc#1 ghost sortedIncl := arg0
@@ -387,7 +394,7 @@ package ast
 //@   nosite (*Tasks).Get                                                                                                [C06,C08]
 // the settings of the PARENT file (run, method, silent, interval, set, shopt) are the parent's own: merging an include
 // never fills or replaces them (an include's top-level "run: once" would otherwise become the default of root tasks)
-//@   nosite store:Taskfile.Run                                                                                          [C01,C06]
+//@   nosite store:Taskfile.Run                                                                                          [C01,C06,C14,C11]
 //@   nosite store:Taskfile.Method                                                                                       [C01,C05]
 //@   nosite store:Taskfile.Silent                                                                                       [C01]
 //@   nosite store:Taskfile.Interval                                                                                     [C01]
